@@ -315,8 +315,8 @@ def adjust_intervals(
         raise ValueError("Supplied intervals are empty, can't append new" " intervals")
 
     if t_min is not None:
-        # Find the intervals that end at or after t_min
-        first_idx = np.argwhere(intervals[:, 1] >= t_min)
+        # Find the intervals that end after t_min
+        first_idx = np.argwhere(intervals[:, 1] > t_min)
 
         if len(first_idx) > 0:
             # If we have events below t_min, crop them out
@@ -324,6 +324,14 @@ def adjust_intervals(
                 labels = labels[first_idx[0, 0] :]
             # Clip to the range (t_min, +inf)
             intervals = intervals[first_idx[0, 0] :]
+        elif t_max is not None:
+            # Every interval ends at or before t_min: the range lies after them
+            return (
+                np.array([[t_min, t_max]]),
+                None if labels is None else [end_label],
+            )
+        else:
+            raise ValueError("No interval ends after t_min, can't append new intervals")
         intervals = np.maximum(t_min, intervals)
 
         if intervals.min() > t_min:
@@ -334,16 +342,21 @@ def adjust_intervals(
                 labels.insert(0, start_label)
 
     if t_max is not None:
-        # Find the intervals that begin after t_max
-        last_idx = np.argwhere(intervals[:, 0] > t_max)
+        # Find the intervals that begin at or after t_max
+        last_idx = np.argwhere(intervals[:, 0] >= t_max)
 
         if len(last_idx) > 0:
-            # We have boundaries above t_max.
-            # Trim to only boundaries <= t_max
+            # We have boundaries at or above t_max.
+            # Trim to only boundaries < t_max
             if labels is not None:
                 labels = labels[: last_idx[0, 0]]
             # Clip to the range (-inf, t_max)
             intervals = intervals[: last_idx[0, 0]]
+
+        if intervals.size == 0:
+            raise ValueError(
+                "No interval begins before t_max, can't append new intervals"
+            )
 
         intervals = np.minimum(t_max, intervals)
 
